@@ -46,7 +46,7 @@ for _n, _c in (('EAGAIN', 'BlockingIOError'), ('EALREADY', 'BlockingIOError'), (
     OSERROR_BY_ERRNO[getattr(_errno, _n)] = _c
 
 PLAIN_CLASSES = ['int', 'bool', 'str', 'bytes', 'bytearray', 'list', 'tuple', 'dict', 'set', 'frozenset',
-                 'float', 'type', 'NoneType', 'memoryview', 'function', 'deque', 'range', 'module',
+                 'float', 'type', 'NoneType', 'memoryview', 'function', 'deque', 'range', 'module', 'slice',
                  'defaultdict', 'Lock', 'Condition', 'Thread']
 
 
@@ -739,6 +739,8 @@ def b_len(ex, a, k):
             raise Unsupported('len of dict with symbolic keys')
         return len(v.d)
     if isinstance(v, SSet):
+        if v.ranges or v.minus is not None or v.pred is not None:
+            return N.set_len(ex, v)
         return len(v.d)
     if isinstance(v, RangeVal):
         return ex.range_len(v)
@@ -808,6 +810,8 @@ def class_of(ex, v):
         return B['module']
     if isinstance(v, RangeVal):
         return B['range']
+    if isinstance(v, slice):
+        return B['slice']
     if isinstance(v, LockVal):
         return B['Lock']
     if isinstance(v, CondVal):
@@ -1003,7 +1007,21 @@ def b_dict(ex, a, k):
 
 
 def b_set(ex, a, k):
+    if a and isinstance(a[0], RangeVal) and a[0].step == 1 and N.range_is_big(a[0]):
+        s = SSet()
+        s.ranges.append((a[0].start, a[0].stop))
+        return s
+    if a and isinstance(a[0], SSet) and (a[0].ranges or a[0].minus is not None or a[0].pred is not None):
+        return N.copy_set(a[0])
     return N.make_set(ex, list(N.iterate(ex, a[0])) if a else [])
+
+
+def b_slice(ex, a, k):
+    if len(a) == 1:
+        return slice(None, a[0], None)
+    if len(a) == 2:
+        return slice(a[0], a[1], None)
+    return slice(a[0], a[1], a[2])
 
 
 def b_minmax(which):
@@ -1312,7 +1330,23 @@ def b_format(ex, a, k):
     return OPAQUE
 
 
+def b_set_within(ex, a, k):
+    """spec helper: every member of the (interval) set lies in [lo, hi)"""
+    st, lo, hi = a
+    if not isinstance(st, SSet) or st.minus is not None:
+        raise Unsupported('set_within on %r' % (st,))
+    cs = []
+    for x in st.d.values():
+        cs.append(mk_bool(z3.And(zint(x) >= zint(lo), zint(x) < zint(hi))))
+    for a_, b_ in st.ranges:
+        cs.append(mk_bool(z3.Or(zint(b_) <= zint(a_), z3.And(zint(a_) >= zint(lo), zint(b_) <= zint(hi)))))
+    if st.pred is not None:
+        cs.append(mk_bool(z3.And(z3.IntVal(st.pred[0]) >= zint(lo), z3.IntVal(st.pred[1]) <= zint(hi))))
+    return N.vand(ex, cs) if cs else True
+
+
 BUILTIN_FUNCS = {
+    'set_within': b_set_within,
     'len': b_len, 'range': b_range, 'isinstance': b_isinstance, 'issubclass': b_issubclass,
     'min': b_minmax('min'), 'max': b_minmax('max'), 'sum': b_sum, 'abs': b_abs, 'sorted': b_sorted,
     'reversed': b_reversed, 'enumerate': b_enumerate, 'zip': b_zip, 'map': b_map, 'filter': b_filter,
@@ -1327,7 +1361,7 @@ BUILTIN_FUNCS = {
 CONSTRUCTORS = {
     'int': b_int, 'bool': b_bool, 'float': b_float, 'bytes': b_bytes, 'bytearray': b_bytearray,
     'str': b_str, 'list': b_list, 'tuple': b_tuple, 'dict': b_dict, 'set': b_set, 'frozenset': b_set,
-    'type': b_type, 'memoryview': b_memoryview, 'range': b_range,
+    'type': b_type, 'memoryview': b_memoryview, 'range': b_range, 'slice': b_slice,
 }
 
 
